@@ -381,6 +381,8 @@ def run(rep):
     rep.info['pushes'] = n_push
     # "on success every declared binding appears exactly once, in its own group, with its own index": the emission side (fields, entries and
     # layout entries range over the collected list unfiltered and print the collected index; one item set per group key) is C04's
+    from wrappers import check_one_module
+    check_one_module(rep, 'C11.one-module')
     from common import include
     include(rep, 'c04', ('C04.R1-fields.same-list', 'C04.R2-entries.same-list', 'C04.R2.entry-binding', 'C04.R3', 'C04.R4.names', 'C04.R4.set-index', 'C04.groups-ordered-map', 'C04.R7'), 'emitted-as-collected')
 
